@@ -50,6 +50,10 @@ MUTANTS = [
   ("C17", "pending sends dropped silently: promises kept alive forever (futures dangle)", "src/socket_async_impl.cpp",
    "SocketAsyncImpl::~SocketAsyncImpl()\n{",
    "SocketAsyncImpl::~SocketAsyncImpl()\n{\n  new std::variant<SendQ, SendToQ>(std::move(sendQ));"),
+  ("C17", "failed driver-side send also runs the disconnect handler (use-after-free if it destroys the socket)",
+   "src/socket_async_impl.cpp",
+   "    promise.set_exception(std::make_exception_ptr(e));\n  }\n  q.pop();\n  return (sendQSize == 1U);",
+   "    promise.set_exception(std::make_exception_ptr(e));\n    onError(e.what());\n  }\n  q.pop();\n  return (sendQSize == 1U);"),
   ("C17", "DoOneSocketTask goes on iterating after a handler ran", "src/driver_impl.cpp",
    "    if(pfd.revents & POLLIN) {\n      sock.DriverOnReadable();\n      return;\n    }",
    "    if(pfd.revents & POLLIN) {\n      sock.DriverOnReadable();\n      if(pfd.revents & POLLOUT) { (void)sock.DriverOnWritable(); }\n      return;\n    }"),
